@@ -63,3 +63,21 @@ def _cls(ex, a, kw):
 unflatten.bindings['cls'] = Handler('cls', _cls, 'FrozenDict(mapping, __unsafe_skip_copy__=True)')
 unflatten.frame_except = {'FrozenDict._dict': "r == ghost('constructed')"}
 unflatten.dict_hint = Inner
+
+
+# ---- pickling: the pickle carries the class and a plain deep copy of the contents, nothing else -------------------------
+PyClass = opaque('PyClass', is_str=False)
+Plain = opaque('PlainDict', is_str=False)
+CLS_FD = GlobalVar('FrozenDict', PyClass)
+unfrozen = UFn('unfrozen', [Inner], Plain, 'the nested plain-dict deep copy of the contents (FrozenDict.unfreeze)')
+_unfreeze = Handler('FrozenDict.unfreeze', lambda ex, a, kw: ex.call_value(unfrozen, [ex.deref(ex.getattr_(a[0], '_dict'))], {}),
+                    'assumed: unfreeze() is a function of the contents only (its copy semantics are checked by the bounded stand-in)')
+reduce_ = function(
+  F + '::FrozenDict.__reduce__', params=[('self', FD)], returns=TupleOf(PyClass, TupleOf(Plain)),
+  ensures=[
+    # what is pickled is (FrozenDict, (unfreeze(self),)): the class and a plain copy of the CONTENTS -- no cached state
+    # (such as the per-process hash) travels with it, so the reading side rebuilds the value through FrozenDict.__init__
+    'result[0] == CLS_FD',
+    'result[1][0] == unfrozen(self._dict)',
+  ],
+  bindings={'FrozenDict': CLS_FD, 'FrozenDict.unfreeze': _unfreeze}, modifies=[], props=('C15',))
